@@ -984,6 +984,13 @@ struct Dec {
             for (auto& p : c.polys) resolve_props(p.props);
             for (auto& p : c.paths) resolve_props(p.props);
             for (auto& l : c.labels) {
+                // properties of a TEXTSTRING record are shared by every text that uses it by number: they count
+                // as the first properties of each of those labels (how gdstk models them)
+                if (l.text.size() >= 2 && l.text[0] == '\x01' && l.text[1] == '#') {
+                    uint64_t n = strtoull(l.text.c_str() + 2, nullptr, 10);
+                    auto it = textstrings.props.find(n);
+                    if (it != textstrings.props.end()) l.props.insert(l.props.begin(), it->second.begin(), it->second.end());
+                }
                 l.text = resolve(l.text, textstrings, "text string");
                 resolve_props(l.props);
             }
